@@ -224,6 +224,68 @@ pub fn case_line(id: &str, shape: &str, gt: &Graph, c: &PrConf, r: &Result<PrOut
     s
 }
 
+/// The command-line entry point (`webgraph rank pagerank`): the transpose is written as a
+/// BvGraph with its Elias-Fano offsets, the preference vector as an ASCII file, and the
+/// ranks are read back from the ASCII output (shortest round-trip representation).
+pub fn run_cli(dir: &std::path::Path, gt: &Graph, c: &PrConf, parse: bool) -> Result<Vec<f64>, String> {
+    use dsi_bitstream::prelude::BE;
+    let base = dir.join("gt");
+    for ext in ["graph", "offsets", "properties", "ef"] {
+        let _ = std::fs::remove_file(base.with_extension(ext));
+    }
+    let vg = vec_graph(gt);
+    webgraph::prelude::BvComp::with_basename(&base).comp_graph::<BE>(&vg).map_err(|e| format!("comp:{e:#}"))?;
+    let b = base.to_str().unwrap().to_string();
+    webgraph_cli::cli_main(vec!["webgraph".to_string(), "build".into(), "ef".into(), b.clone()]).map_err(|e| format!("ef:{e:#}"))?;
+    let outp = dir.join("ranks.txt");
+    let _ = std::fs::remove_file(&outp);
+    let alpha = c.an as f64 / c.ad as f64;
+    let mut args: Vec<String> = vec!["webgraph-rank".into(), "pagerank".into(), b, "--output".into(), outp.to_str().unwrap().into(),
+        "--alpha".into(), format!("{alpha}"), "--threshold".into(), format!("1e-{}", c.epsexp), "--max-iter".into(), ITER_CAP.to_string(),
+        "--mode".into(), ["strongly-preferential", "weakly-preferential", "pseudo-rank"][c.mode as usize].into(),
+        "--num-threads".into(), c.threads.to_string()];
+    if c.gran.0 == 0 { args.push("--node-granularity".into()); } else { args.push("--arc-granularity".into()); }
+    args.push(c.gran.1.to_string());
+    let mut pref_path = None;
+    if !c.weights.is_empty() {
+        let wsum: u64 = c.weights.iter().sum();
+        let pp = dir.join("pref.txt");
+        let text: String = c.weights.iter().map(|&w| format!("{}\n", w as f64 / wsum as f64)).collect();
+        std::fs::write(&pp, text).map_err(|e| e.to_string())?;
+        args.push("--preference".into());
+        args.push(pp.to_str().unwrap().into());
+        pref_path = Some(pp);
+    }
+    if parse {
+        webgraph_cli::rank::cli_main(args).map_err(|e| format!("cli:{e:#}"))?;
+    } else {
+        // the same command with the argument structure built directly (no clap parsing)
+        use webgraph_cli::rank::pagerank::{CliArgs, CliMode};
+        use webgraph_cli::{FloatSliceFormat, GranularityArgs, LogIntervalArg, NumThreadsArg};
+        let a = CliArgs {
+            transpose: base.clone(),
+            output: outp.clone(),
+            alpha,
+            max_iter: Some(ITER_CAP),
+            threshold: 10f64.powi(-(c.epsexp as i32)),
+            preference: pref_path,
+            preference_fmt: FloatSliceFormat::Ascii,
+            mode: [CliMode::StronglyPreferential, CliMode::WeaklyPreferential, CliMode::PseudoRank][c.mode as usize],
+            fmt: FloatSliceFormat::Ascii,
+            precision: None,
+            num_threads: NumThreadsArg { num_threads: c.threads },
+            granularity: GranularityArgs {
+                arc_granularity: if c.gran.0 == 1 { Some(c.gran.1) } else { None },
+                node_granularity: if c.gran.0 == 0 { Some(c.gran.1 as usize) } else { None },
+            },
+            log_interval: LogIntervalArg { log_interval: std::time::Duration::from_secs(10) },
+        };
+        webgraph_cli::rank::pagerank::main(a).map_err(|e| format!("climain:{e:#}"))?;
+    }
+    let text = std::fs::read_to_string(&outp).map_err(|e| format!("out:{e}"))?;
+    text.split_whitespace().map(|t| t.parse::<f64>().map_err(|e| format!("parse:{e}"))).collect()
+}
+
 pub fn gen_conf(rng: &mut Rng, n: usize, arcs: usize) -> PrConf {
     let (an, ad) = rng.pick(&[(0u64, 1u64), (1, 2), (85, 100), (99, 100), (85, 100), (9, 10), (1, 4), (1, 100)]);
     let weights: Vec<u64> = if n == 0 || rng.chance(2, 5) {
@@ -252,6 +314,7 @@ pub fn gen_conf(rng: &mut Rng, n: usize, arcs: usize) -> PrConf {
 
 pub fn run(seed: u64, count: usize, maxn: usize, out: &mut impl Write) {
     let mut rng = Rng::new(seed ^ 0x9A6E);
+    let dir = tempfile::Builder::new().prefix("wgverif-prank").tempdir().unwrap();
     for i in 0..count {
         let n = match rng.below(10) {
             0 => rng.range(0, 2),
@@ -265,5 +328,23 @@ pub fn run(seed: u64, count: usize, maxn: usize, out: &mut impl Write) {
         let (gt2, c2) = (gt.clone(), c.clone());
         let r = catch(std::panic::AssertUnwindSafe(move || run_impl(&gt2, &c2)));
         writeln!(out, "{}", case_line(&format!("p{i}"), shape, &gt, &c, &r)).unwrap();
+        if n > 0 && (i % 10 == 3 || i % 200 == 7) {
+            // the same configuration through the command-line entry point: mostly with the
+            // argument structure built directly, sometimes through the argument parser
+            let parse = i % 200 == 7;
+            let (gt2, c2, d2) = (gt.clone(), c.clone(), dir.path().to_path_buf());
+            let rc = catch(std::panic::AssertUnwindSafe(move || run_cli(&d2, &gt2, &c2, parse)));
+            let rc: Result<PrOut, String> = match rc {
+                Ok(Ok(x)) => match &r {
+                    // the trajectory part is the library's (the CLI has no separate one)
+                    Ok(o) => Ok(PrOut { x, iters: 1, nd: 0.0, xk: o.xk.clone(), ndk: o.ndk, itk: o.itk }),
+                    Err(p) => Err(p.clone()),
+                },
+                Ok(Err(e)) => Err(format!("err:{e}")),
+                Err(p) => Err(p),
+            };
+            let entry = if parse { " entry=cli shape=" } else { " entry=climain shape=" };
+            writeln!(out, "{}", case_line(&format!("c{i}"), shape, &gt, &c, &rc).replace(" shape=", entry)).unwrap();
+        }
     }
 }
